@@ -266,7 +266,8 @@ impl Request {
         r.consume("HTTP/1.1\r\n").ok_or_else(Response::HTTPVersionNotSupported)?;
 
         while r.consume("\r\n").is_none() {
-            let key_bytes = r.read_while(|b| b != &b':');
+            /* a header line without `:` is not a header line (the name must not run into the next line) */
+            let key_bytes = r.read_while(|b| !matches!(b, b':' | b'\r' | b'\n'));
             r.consume(": ").ok_or_else(Response::BadRequest)?;
             let value = r.read_while(|b| b != &b'\r');
             /* the accessors hand out `&str`s */
